@@ -70,7 +70,7 @@ def cases(draw, tier):
             args.append({"k": "scalar", "t": t, "v": draw(tg.scalar_values(t))})
         elif k == "ptr":
             t = draw(st.sampled_from(tg.SCALARS))
-            form = draw(st.sampled_from(["nd1", "slice", "strided", "reversed", "nd2", "ndF", "colblock", "transposed", "xarr_static", "xarr_dyn", "xarr_2d"]))
+            form = draw(st.sampled_from(["nd1", "slice", "strided", "reversed", "nd2", "ndF", "colblock", "transposed", "xarr_static", "xarr_dyn", "xarr_2d", "xarr_unaligned"]))
             n = draw(st.integers(1, 6))
             vals = [draw(tg.scalar_values(t)) for _ in range(n * 4)]
             args.append({"k": "ptr", "t": t, "form": form, "n": n, "off": draw(st.integers(0, 3)), "vals": vals})
@@ -163,7 +163,7 @@ def run_case(case):
             if form.startswith("xarr"):
                 labels.add("arg:ptr_xarray")
                 nontrivial = True
-                if form == "xarr_static":
+                if form in ("xarr_static", "xarr_unaligned"):
                     spec = {"k": "array", "name": None, "item": {"k": "scalar", "t": a["t"]}, "shape": [n], "order": [0]}
                     val = {"shape": [n], "flat": vals[:n]}
                 elif form == "xarr_dyn":
@@ -175,7 +175,13 @@ def run_case(case):
                 node = mat.materialise(spec)
                 if a["off"]:
                     buf.allocate(8 * a["off"])
-                x = sut(mat.construct, node, val, mat.Forms([1]), mat.Env(buf, ctx), _buffer=buf)
+                kwx = {}
+                if form == "xarr_unaligned":
+                    # placed by the caller at an offset that is not a multiple of the item size
+                    o_ = buf.allocate(8 * n + 16)
+                    kwx["_offset"] = o_ + 1 + a["off"] % 7
+                    labels.add("arg:ptr_xarray_unaligned")
+                x = sut(mat.construct, node, val, mat.Forms([1]), mat.Env(buf, ctx), _buffer=buf, **kwx)
                 if is_raised(x):
                     return fail("construct_raised", f"{x}", x.key, labels)
                 kwargs[nm] = x
@@ -259,17 +265,23 @@ def run_case(case):
         before = snapshot()
         kw = dict(kwargs)
         neg = case["neg"]
+        if case.get("twice"):
+            # the same kernel reached by subscript instead of attribute access
+            entry = lambda: ctx.kernels[kname]
+            labels.add("neg_via_subscript")
+        else:
+            entry = lambda: getattr(ctx.kernels, kname)
         if neg == "positional":
-            call = lambda: getattr(ctx.kernels, kname)(*kw.values())
+            call = lambda: entry()(*kw.values())
         elif neg == "missing":
             kw.pop(f"a{nargs - 1}")
-            call = lambda: getattr(ctx.kernels, kname)(**kw)
+            call = lambda: entry()(**kw)
         elif neg == "extra":
             kw["zz"] = 1
-            call = lambda: getattr(ctx.kernels, kname)(**kw)
+            call = lambda: entry()(**kw)
         elif neg == "misspelt":
             kw["b0"] = kw.pop("a0")
-            call = lambda: getattr(ctx.kernels, kname)(**kw)
+            call = lambda: entry()(**kw)
         else:
             ptrs = [i for i, e in enumerate(expect) if e[0] in ("nd", "xarr")]
             if not ptrs:
@@ -281,7 +293,7 @@ def run_case(case):
                 if np.dtype(NPT[other]).itemsize == np.dtype(NPT[t]).itemsize and other == "Float32" and t in ("Int32", "UInt32"):
                     other = "Float64"
                 kw[f"a{i}"] = np.zeros(8, dtype=NPT[other])
-                call = lambda: getattr(ctx.kernels, kname)(**kw)
+                call = lambda: entry()(**kw)
         if call is not None:
             labels.add("neg:" + neg)
             rr = sut(call)
